@@ -209,6 +209,7 @@ static int d_fvec5(fx_t *F, int v, dv_t *o)
     int n = dvp(o, 0, F->f5, X_BASE, 0, "ascending");
     n = dvp(o, n, F->fdesc, X_CTX, 0, "descending");
     n = dvp(o, n, F->fneg, X_CTX, 0, "negative");
+    n = dvp(o, n, F->fnan, X_ALT, 0, "has-NaN");
     return n;
 }
 static int d_fvec5_null(fx_t *F, int v, dv_t *o)
@@ -271,6 +272,7 @@ static int d_sig_nf(fx_t *F, int v, dv_t *o)
     n = dvp(o, n, NULL, X_CTX, 0, "NULL");
     n = dvp(o, n, F->sigz, X_CTX, 0, "has-zero");
     n = dvp(o, n, F->signeg, X_CTX, 0, "has-negative");
+    n = dvp(o, n, F->signan, X_ALT, 0, "has-NaN");
     return n;
 }
 static int d_sig_tr(fx_t *F, int v, dv_t *o)
@@ -278,12 +280,14 @@ static int d_sig_tr(fx_t *F, int v, dv_t *o)
     int n = dvp(o, 0, F->sig5, X_BASE, 0, "positive");
     n = dvp(o, n, NULL, X_ALT, 0, "NULL");
     n = dvp(o, n, F->signeg, X_CTX, 0, "has-negative");
+    n = dvp(o, n, F->signan, X_ALT, 0, "has-NaN");
     return n;
 }
 static int d_sig_corr(fx_t *F, int v, dv_t *o)
 {
     int n = dvp(o, 0, F->sig5, X_BASE, 0, "positive");
     n = dvp(o, n, F->sigz, X_CTX, 0, "has-zero");
+    n = dvp(o, n, F->signan, X_ALT, 0, "has-NaN");
     return n;
 }
 static int d_g5(fx_t *F, int v, dv_t *o)
@@ -614,6 +618,8 @@ static int d_freq(fx_t *F, int v, dv_t *o)
 {
     int n = dvd(o, 0, 4.0e9, X_BASE, 0, "4e9");
     n = dvd(o, n, 0.0, X_ALT, 0, "0");
+    n = dvd(o, n, -1.0, X_ALT, 0, "-1");
+    n = dvd(o, n, NAN, X_ALT, 0, "NaN");
     return n;
 }
 static int d_fvec3_set(fx_t *F, int v, dv_t *o)
